@@ -243,7 +243,7 @@ def parse_type(s):
             return ('blocks', args()[0])
         if name == 'rag':
             return ('rag', args()[0])
-        if name in ('assoc', 'pairs'):
+        if name in ('assoc', 'pairs', 'block'):
             return (name, args()[0])
         if name in ('mat', 'flatmat', 'cube'):
             return (name, args()[0])
